@@ -3332,6 +3332,16 @@ func (x *c24x) limitFields() map[types.Object]bool {
 				}
 			}
 		}
+		// c.limit = param (also in a parallel assignment)
+		if as, ok := n.(*ast.AssignStmt); ok && len(as.Lhs) == len(as.Rhs) && param != nil {
+			for i, l := range as.Lhs {
+				if identObj(info, as.Rhs[i]) == param {
+					if fv, _ := hbFieldOf(info, l); fv != nil {
+						out[fv] = true
+					}
+				}
+			}
+		}
 		return true
 	})
 	for changed := true; changed; {
@@ -3346,6 +3356,21 @@ func (x *c24x) limitFields() map[types.Object]bool {
 					if id, ok := kv.Key.(*ast.Ident); ok {
 						if o := sf.Info().Uses[id]; o != nil && !out[o] {
 							out[o] = true
+							changed = true
+						}
+					}
+				}
+				return true
+			})
+			ast.Inspect(sf.Body, func(n ast.Node) bool {
+				as, ok := n.(*ast.AssignStmt)
+				if !ok || len(as.Lhs) != len(as.Rhs) {
+					return true
+				}
+				for i, l := range as.Lhs {
+					if out[usedObj(sf.Info(), as.Rhs[i])] {
+						if fv, _ := hbFieldOf(sf.Info(), l); fv != nil && !out[fv] {
+							out[fv] = true
 							changed = true
 						}
 					}
